@@ -33,6 +33,7 @@ type Config struct {
 	MapOrderBudget   int
 	PreemptAtLocks   bool
 	DelayBound       int
+	CrossAsserts     string
 	TrackLib         bool
 	Workers          int
 	TimeoutMs        int
@@ -45,7 +46,7 @@ type Config struct {
 
 func defaultConfig() Config {
 	return Config{Preempt: 2, MaxSteps: 2000000, Unwind: 4096, MaxDepth: 200, MaxConcretize: 300,
-		AllocCap: 16, MaxConcreteAlloc: 1 << 20, MapPermMax: 3, MapVariants: 2, MapOrderBudget: 2, DelayBound: -1, Workers: 16,
+		AllocCap: 16, MaxConcreteAlloc: 1 << 20, MapPermMax: 3, MapVariants: 2, MapOrderBudget: 2, DelayBound: -1, CrossAsserts: "z3-new", Workers: 16,
 		TimeoutMs: 10000, Solvers: []string{"z3", "cvc5-int", "cvc5"}, MaxPaths: 2000000,
 		Params: map[string]int{}}
 }
